@@ -425,6 +425,9 @@ class TransportRefsContainer(RefsContainer):
         :param ref: The new sha the refname will refer to.
         :return: True if the add was successful, False otherwise.
         """
+        # Decide on what is on disk now, not on the packed refs this container
+        # read earlier: another process may have packed or deleted the ref.
+        self._packed_refs = None
         try:
             realnames, contents = self.follow(name)
             if contents is not None:
